@@ -26,16 +26,22 @@ pub open spec fn bucket_of(key: Seq<u8>, n: int) -> int { (key_hash(key) as int)
 
 /// `s` is the chain of bucket `b`: starts at the bucket head, follows the next links, ends with next == 0,
 /// holds only key records that hash to `b`, no record twice
-#[verifier::opaque]
-pub open spec fn chain_ok(kw: HeapW, head: nat, s: Seq<nat>, b: int, n: int) -> bool {
-    &&& first(s) == head
-    &&& forall|i: int| 0 <= i < s.len() ==> {
+pub open spec fn chain_members_ok(kw: HeapW, s: Seq<nat>, b: int, n: int) -> bool {
+    forall|i: int| 0 <= i < s.len() ==> {
             &&& #[trigger] is_key(kw, s[i])
             &&& s[i] != 0
             &&& knext(kw, s[i]) == nxt(s, i)
             &&& bucket_of(kkey(kw, s[i]), n) == b
         }
-    &&& forall|i: int, j: int| 0 <= i < j < s.len() ==> s[i] != s[j]
+}
+pub open spec fn chain_distinct(s: Seq<nat>) -> bool {
+    forall|i: int, j: int| 0 <= i < j < s.len() ==> s[i] != s[j]
+}
+#[verifier::opaque]
+pub open spec fn chain_ok(kw: HeapW, head: nat, s: Seq<nat>, b: int, n: int) -> bool {
+    &&& first(s) == head
+    &&& chain_members_ok(kw, s, b, n)
+    &&& chain_distinct(s)
 }
 pub open spec fn chains_ok(kw: HeapW, hb: Seq<u8>, n: int, cs: Seq<Seq<nat>>) -> bool {
     &&& cs.len() == n
